@@ -175,7 +175,7 @@ def tree_internal(u):
 
 
 def run(ctx):
-    cfgs = ["default", "stateless"] if ctx.tier == "quick" else ["default", "stateless", "optimal"]
+    cfgs = ["default", "stateless"] if ctx.tier == "quick" else ["default", "stateless", "optimal", "full"]
     ctx.prefetch(cfgs + ["fixtures"])
     n = 0
     for cfg in cfgs:
